@@ -36,8 +36,14 @@ fn write_fvar(axes: &[Axis]) -> Vec<u8> {
     // case stays a function of its description
     let h = axes.iter().fold(0x9E37u32, |h, a| h.wrapping_mul(31).wrapping_add(a.def as u32 ^ (a.max as u32).rotate_left(7)));
     let axis_size: u16 = [20u16, 20, 24, 32, 22][(h % 5) as usize];
+    // axesArrayOffset: 16 (directly after the header) in every font in the wild, but any offset is valid
+    let axes_off: u16 = [16u16, 16, 20, 36, 18][((h >> 8) % 5) as usize];
     let mut w = W::new();
-    w.u16(1).u16(0).u16(16).u16(2).u16(axes.len() as u16).u16(axis_size).u16(0).u16(4 * axes.len() as u16 + 4);
+    w.u16(1).u16(0).u16(axes_off).u16(2).u16(axes.len() as u16).u16(axis_size).u16(0).u16(4 * axes.len() as u16 + 4);
+    for k in 16..axes_off {
+        // padding that would read as an axis record 0..0..1 / garbage if it were taken for one
+        w.u8(if k % 4 == 3 { 1 } else { 0 });
+    }
     for (i, a) in axes.iter().enumerate() {
         w.u32(u32::from_be_bytes([b'a', b'x', b'0' + (i / 10) as u8, b'0' + (i % 10) as u8]));
         w.i32(a.min).i32(a.def).i32(a.max).u16(0).u16(256 + i as u16);
@@ -46,6 +52,10 @@ fn write_fvar(axes: &[Axis]) -> Vec<u8> {
         }
     }
     w.b
+}
+
+fn fvar_axes_offset(fvar: &[u8]) -> u16 {
+    crate::sfnt::be16(fvar, 4).unwrap_or(16)
 }
 
 fn fvar_axis_size(fvar: &[u8]) -> u16 {
@@ -247,6 +257,9 @@ impl C13 {
         let fvar_bytes = write_fvar(axes);
         if axes.len() >= 2 {
             cx.class(if fvar_axis_size(&fvar_bytes) == 20 { "fvar:axisSize=20" } else { "fvar:axisSize>20,several-axes" });
+        }
+        if fvar_axes_offset(&fvar_bytes) != 16 {
+            cx.class("fvar:axesArrayOffset>16");
         }
         let avar_bytes = maps.map(write_avar);
         let fvar = match ReadScope::new(&fvar_bytes).read::<FvarTable<'_>>() {
